@@ -179,7 +179,7 @@ func streamC14(h *H) {
 	c11InstallIndexFull()
 	root := MkTemp("c14-")
 	defer os.RemoveAll(root)
-	n := h.N(24, 300)
+	n := h.N(24, 144)
 	for i := 0; i < n; i++ {
 		c14Scenario(h, root, i)
 	}
